@@ -15,7 +15,7 @@ import (
 // when every key names a stored channel, and then returns those channels; any missing key makes the open fail.
 func VerifC07OpenValidates() {
 	ctx := context.Background()
-	db := gorp.VerifOpenDB(&gorp.VerifKV{}, channel.VerifChanCodec())
+	db := gorp.VerifOpenDB(&gorp.VerifKV{}, channel.HarnessChanCodec())
 	chs := channel.VerifNewService(db)
 	keys := [3]channel.Key{channel.NewKey(1, 1), channel.NewKey(2, 1), channel.NewKey(1, 7)}
 	var stored [3]bool
